@@ -1,7 +1,7 @@
 //! Scripted words through `Mock::slice`, with the number of words consumed observed afterwards.
 use std::panic::{catch_unwind, AssertUnwindSafe};
 use urandom::rng::Mock;
-use urandom::Random;
+use urandom::{Distribution, Random, Rng};
 
 pub type MockRand<'a> = Random<Mock<std::iter::Copied<std::slice::Iter<'a, u64>>>>;
 
@@ -25,5 +25,33 @@ pub fn with_mock<T>(words: &[u64], f: impl FnOnce(&mut MockRand) -> T) -> Option
 			Some((v, words.len() - rem))
 		}
 		Err(_) => None,
+	}
+}
+
+
+thread_local! {
+	/// how the current request wants its samples drawn (`path=` key): the API path is part of the input space
+	pub static PATH: std::cell::RefCell<String> = std::cell::RefCell::new(String::new());
+}
+
+/// `n` samples of `d`, drawn along the API path the request names: `Random::sample` (default), the `samples()` iterator adapter,
+/// the `Distribution` trait method called directly, through the blanket impl for references, or with the generator behind
+/// `Random<dyn Rng>` (type-erased: every generator method goes through the vtable).
+pub fn draw<T, D: Distribution<T>>(r: &mut MockRand, d: &D, n: usize) -> Vec<T> {
+	let path = PATH.with(|p| p.borrow().clone());
+	match path.as_str() {
+		"" | "sample" => (0..n).map(|_| r.sample(d)).collect(),
+		"samples" => r.samples(d).take(n).collect(),
+		"trait" => (0..n).map(|_| Distribution::sample(d, r)).collect(),
+		"ref" => (0..n).map(|_| Distribution::sample(&d, r)).collect(),
+		"dyn" => {
+			let rr: &mut Random<dyn Rng + '_> = r;
+			(0..n).map(|_| rr.sample(d)).collect()
+		}
+		"dynsamples" => {
+			let rr: &mut Random<dyn Rng + '_> = r;
+			rr.samples(d).take(n).collect()
+		}
+		_ => (0..n).map(|_| r.sample(d)).collect(),
 	}
 }
